@@ -379,6 +379,14 @@ def run(ctx):
             for kind, x in obligations(fn):
                 allowed = (kind == "index" and good2 and x is H.strip(pushes[0]["args"][0])) or (kind == "call" and good2 and x.get("callee", "").endswith("::unwrap") and x["recv"] is pushes[0])
                 ctx.oblige("C13|truncate|obligation|%s" % A.desc(x)[:60], allowed, "panic-capable construct outside the template in truncate: %s" % A.desc(x)[:100], cfg=cfg, where=H.line(x))
+        if ctx.tier == "thorough" and cfg == "k0":
+            from .clippyxref import cross_reference
+            spans = []
+            for p_ in (TRUNCATE, FLOOR, PRED, SKIP_W, TRUNC_W):
+                f_ = F.fn(p_)
+                if f_ is not None:
+                    spans += [x.get("sp") for _, x in obligations(f_)] + [x.get("sp") for x in H.walk(f_["body"]) if x.get("k") == "cast"]
+            cross_reference(ctx, spans, files=["src/webauthn.rs"])
         if floor_fn is not None:
             res = check_floor(ctx, F, cfg)
         else:
